@@ -13,6 +13,11 @@ var primitiveConversionsSafe = map[cty.Type]map[cty.Type]conversion{
 	cty.Number: {
 		cty.String: func(val cty.Value, path cty.Path) (cty.Value, error) {
 			f := val.AsBigFloat()
+			if f.Sign() == 0 {
+				// Negative zero is equal to zero, so both must convert to
+				// the same string.
+				return cty.StringVal("0"), nil
+			}
 			return cty.StringVal(f.Text('f', -1)), nil
 		},
 	},
